@@ -517,3 +517,52 @@ var rFmtPath = &Rule{
 		}
 	},
 }
+
+// ---------------------------------------------------------------------------
+// R-STACK-PARSE
+
+var rStackParse = &Rule{
+	Name: "R-STACK-PARSE",
+	Doc:  "a printed stack entry is split into file and line at the LAST colon (strings.LastIndexByte / LastIndex with ':'): the line number follows the last colon while file paths may contain colons themselves (drive letters of a Windows peer)",
+	Run: func(c *core.Ctx) {
+		fn := c.P.Func("withstack", "parsePrintedStackEntry")
+		if fn == nil {
+			c.Fail("withstack.parsePrintedStackEntry", token.NoPos, "stack entry parser not found")
+			return
+		}
+		found, other := false, ""
+		sx.EachInstr(fn, func(in ssa.Instruction) {
+			call, ok := in.(*ssa.Call)
+			if !ok {
+				return
+			}
+			f := sx.Callee(call)
+			if f == nil || load.FnPkg(f) == nil || load.FnPkg(f).Path() != "strings" || len(call.Call.Args) != 2 {
+				return
+			}
+			isColon := false
+			if k, ok := sx.ConstInt(call.Call.Args[1]); ok && k == ':' {
+				isColon = true
+			}
+			if s, ok := sx.ConstString(call.Call.Args[1]); ok && s == ":" {
+				isColon = true
+			}
+			if !isColon {
+				return
+			}
+			if strings.HasPrefix(f.Name(), "LastIndex") {
+				found = true
+			} else {
+				other = f.Name()
+			}
+		})
+		switch {
+		case found && other == "":
+			c.Ob("withstack.parsePrintedStackEntry: file/line split", fn.Pos(), true, "at the last colon")
+		case other != "":
+			c.Fail("withstack.parsePrintedStackEntry: file/line split", fn.Pos(), "the entry is split with strings."+other+" on ':' - not at the last colon: a path containing a colon yields a wrong file and line 0")
+		default:
+			c.Undecided("withstack.parsePrintedStackEntry: file/line split", fn.Pos(), "no search for the ':' separator recognised")
+		}
+	},
+}
